@@ -24,6 +24,9 @@ RULE = ('LIST: pattern sequences over {a, b, ..., M(t=...), M(t=a), MTAG(t)} x q
         'tags, {m,n} up to 3, three tags) — each against ALL 364 element sequences over {a,b,c} of length <= 5, as FST '
         'and as pure AST targets; real result (accept/reject + every capture as index ranges) compared with the Lean '
         'model (must agree, the known re-entry defect included) and with re.fullmatch on the letter encoding (the property). '
+        'PRODUCTS (deterministic): None / MMAYBE patterns vs every falsy value; MQ constructor bounds vs re {m,n}; views '
+        '(slices of Compare/Dict/MatchMapping/arguments._all) as patterns vs the copies of all slices; the documented '
+        'single-argument rules of Marguments(_all=[...]) (kind x _strict x default spec x target). '
         'EVENTS: search(pattern, nested, on=, back=, scope=) for on in enter/leave/both x nested x back x scope, from the '
         'module and from a nested def/class/lambda, with 13 tagged patterns whose verdict differs between a node and its '
         'descendants, on nested list/call shapes, corpus programs and hard snippets: the event list (node, leaving, tags) '
@@ -150,8 +153,11 @@ def _real_list_case(arg):
     import c17_pure
     before = (c17_pure.dump(pat), c17_pure.module_state())
     out = []
-    for xs, f, idx in _targets():
-        out.append(L.real_list_match(pat, f.a if pure else f, _index_of(idx)))
+    try:
+        for xs, f, idx in _targets():
+            out.append(L.call_with_timeout(20, L.real_list_match, pat, f.a if pure else f, _index_of(idx)))
+    except L.Timeout:
+        return {'build_exc': f'match does not terminate on {L.target_src(xs)}'}
     after = (c17_pure.dump(pat), c17_pure.module_state())
     if after != before:
         return {'mutated': c17_pure.first_diff(list(before), list(after))}
@@ -381,6 +387,8 @@ def sweep(ctx):
     c17_pure.sweep(ctx)
     import c17_events
     c17_events.sweep(ctx)
+    import c17_views
+    c17_views.sweep(ctx)
 
 
 def search(ctx):
@@ -428,6 +436,9 @@ def replay(ctx, data):
         cls = _classify(w['ps'], w['xs'], r, L.re_oracle(w['ps'], w['xs']))
         if cls:
             ctx.fail('replay', f'{cls}: pfst gives {r}, regex {w.get("regex")}', w)
+    elif kind == 'views':
+        import c17_views
+        c17_views.replay(ctx, w)
     elif kind == 'events':
         import c17_events
         c17_events.replay(ctx, w)
